@@ -329,6 +329,15 @@ theorem tie_refresh_reads_only_the_template_map :
     (Generated.LocksExporter.accesses.any
         (fun a => a.unit == "sendRefreshedTemplates" && a.field == "templatesMap")) = true := by decide
 
+/-- EVERY call of the exported `CloseConnToCollector` waits for the background goroutines (`ep.wg.Wait()`,
+    unconditionally, after the internal close): when any of several concurrent or repeated Close calls returns,
+    the refresher / checker has exited and writes nothing more. A call that returned early because "somebody else
+    is already closing" would let the refresher go on writing behind its back - a window of microseconds on a real
+    socket, which no harness schedule hits. (The event model's `close` step is "mark closed, stop the goroutines";
+    `close_idempotent`, `no_write_after_close` speak about the state after ANY close call.) -/
+theorem tie_every_close_call_waits :
+    Generated.LocksExporter.closeBody = ["ep.closeConnToCollector()", "ep.wg.Wait()"] := by decide
+
 /-- the connection probe of the checker goroutine cannot disturb a write of the application: the only deadline
     the library ever arms on the connection is a READ deadline, in `checkConnToCollector` (a write deadline, or
     `SetDeadline`, armed by the probe would cut a `Write` of the application that is blocked on a slow collector
